@@ -60,6 +60,17 @@ def strFrame (k : Nat) (a1 a2 b1 b2 : Bytes) : String :=
   go.getD "stuck"
 
 def handleStr : List String → String
+  | ["nth", a, n] =>
+    match unhex a, parseInt? n with
+    | some a, some n =>
+      match nthByte a n with
+      | .val b => s!"ok {b}"
+      | .outOfBounds => "err oob"
+    | _, _ => "bad-op"
+  | ["count", a] =>
+    match unhex a with
+    | some a => s!"ok {countBytes a}"
+    | none => "bad-op"
   | ["frame", k, a1, a2, b1, b2] =>
     match parseNat? k, unhex a1, unhex a2, unhex b1, unhex b2 with
     | some k, some a1, some a2, some b1, some b2 => if k = 0 then "bad-op" else strFrame k a1 a2 b1 b2
